@@ -177,7 +177,11 @@ Definition draw_sample (start stop step k : Z) : M (list Z) :=
   let* d := next_draw in
   match d with
   | DSample s' t' p' k' vals =>
-      if (s' =? start) && (t' =? stop) && (p' =? step) && (k' =? k) && (Z.of_nat (List.length vals) =? k)
+      (* the recorded population must be the one the model expects: same length, and (when not
+         empty) same first element, (when longer than one) same step - the same arithmetic
+         progression, however the implementation denotes it (range(..) or an explicit list) *)
+      if (range_len_neg s' t' p' =? n) && ((n =? 0) || (s' =? start)) && ((n <=? 1) || (p' =? step))
+         && (k' =? k) && (Z.of_nat (List.length vals) =? k)
          && distinct vals
          && forallb (fun v => (stop <? v) && (v <=? start) && ((start - v) mod (- step) =? 0)) vals
       then ret vals else mismatch "sample"
